@@ -406,3 +406,261 @@ Qed.
 
 Corollary lexable_lex toks : lexable true toks -> lex (render toks) = Some toks.
 Proof. intros H. unfold lex. apply Lex_adequate; [apply lexable_Lex; exact H|lia]. Qed.
+
+(* ================================================================ F. the printer's output is lexable *)
+From Anthem Require Import Proofs.AspRoundTrip.
+
+Fixpoint wf_term (t : term) : Prop :=
+  match t with
+  | TPre (PSym s) => wf_symbol s = true
+  | TPre _ => True
+  | TVar x => wf_variable x = true
+  | TUn _ c => wf_term c
+  | TBin _ l r => wf_term l /\ wf_term r
+  end.
+Definition wf_atom (a : atom) : Prop := wf_symbol (apred a) = true /\ Forall wf_term (aterms a).
+Definition wf_bformula (b : bformula) : Prop :=
+  match b with
+  | BLit l => wf_atom (latom l)
+  | BCmp c => wf_term (clhs c) /\ wf_term (crhs c)
+  end.
+Definition wf_head (h : head) : Prop :=
+  match h with HBasic a | HChoice a => wf_atom a | HFalsity => True end.
+Definition wf_rule (r : rule) : Prop := wf_head (rhead r) /\ Forall wf_bformula (rbody r).
+(* every symbol matches  _?[a-z][A-Za-z0-9_]*  and every variable  [A-Z][A-Za-z0-9]*  *)
+Definition wf_program (p : program) : Prop := Forall wf_rule p.
+
+Definition sep_head (K : list token) : Prop :=
+  match K with k :: _ => sep_token k = true | [] => False end.
+Lemma sep_head_next K : sep_head K -> next_sep (hd_error K).
+Proof. destruct K; cbn; tauto. Qed.
+
+Lemma kw_tail a X : kw_clash (a :: X) = false -> kw_clash X = false.
+Proof. destruct X as [|b X]; [reflexivity|]. cbn [kw_clash]. intros H. apply orb_false_iff in H. tauto. Qed.
+Lemma kw_app_r A B : kw_clash (A ++ B) = false -> kw_clash B = false.
+Proof. induction A as [|a A IH]; cbn [app]; [tauto|]. intros H. apply IH. eapply kw_tail, H. Qed.
+Lemma kw_head s k X : kw_clash (TkSym s :: k :: X) = false -> s = "not" -> starts_with_space k = false.
+Proof.
+  cbn [kw_clash is_not_sym]. intros H E. apply orb_false_iff in H. destruct H as [H _].
+  destruct (string_dec s "not"); [|contradiction]. exact H.
+Qed.
+
+(* the positive-numeral quirk of Format<Term>::precedence: Numeral(1..) is parenthesised under
+   unary minus, so that "-" is never directly followed by a non-zero digit *)
+Lemma num_pos_prec z : (1 <= z)%Z -> Nat.ltb pu (precedence (TPre (PNum z))) = true.
+Proof. intros H. unfold precedence, pu. cbn. destruct (Z.leb_spec 1 z); [reflexivity|lia]. Qed.
+
+Section TermLexable.
+
+Definition term_goal (c : term) : Prop :=
+  forall K, sep_head K -> kw_clash (print_term c ++ K) = false -> lexable false K ->
+  lexable true (print_term c ++ K).
+
+Lemma lexable_paren c w K : term_goal c -> sep_head K ->
+  kw_clash (paren w (print_term c) ++ K) = false -> lexable false K ->
+  lexable true (paren w (print_term c) ++ K).
+Proof.
+  intros IH SK KW LK. destruct w; cbn [paren] in *; [|apply IH; assumption].
+  cbn [app lexable tok_ok opnd_after]. split; [exact I|].
+  rewrite <- app_assoc. cbn [app]. apply IH.
+  - reflexivity.
+  - cbn [app] in KW. rewrite <- app_assoc in KW. cbn [app] in KW. eapply kw_tail, KW.
+  - cbn [lexable tok_ok opnd_after]. split; [exact I|exact LK].
+Qed.
+
+Lemma print_term_un c : print_term (TUn AUNeg c) =
+  TkNeg :: paren (mandatory_parentheses c || Nat.ltb pu (precedence c)) (print_term c).
+Proof. cbn [print_term]. rewrite assoc_un, prec_un. reflexivity. Qed.
+
+Lemma term_lexable t : wf_term t -> term_goal t.
+Proof.
+  induction t as [p|x|[] c IH|o l IHl r IHr]; intros W K SK KW LK.
+  - destruct p as [|z|s|]; cbn [print_term print_pterm app lexable tok_ok opnd_after] in *.
+    + split; [apply sep_head_next, SK|exact LK].
+    + split; [split; [auto|apply sep_head_next, SK]|exact LK].
+    + split; [|exact LK]. split; [exact W|]. split; [apply sep_head_next, SK|].
+      destruct K as [|k K']; [contradiction|]. cbn [hd_error]. intros E. eapply kw_head; eassumption.
+    + split; [apply sep_head_next, SK|exact LK].
+  - cbn [print_term app lexable tok_ok opnd_after] in *.
+    split; [split; [exact W|apply sep_head_next, SK]|exact LK].
+  - (* unary minus *)
+    rewrite print_term_un in *. cbn [app] in *. cbn [wf_term] in W.
+    cbn [lexable opnd_after]. split.
+    + cbn [tok_ok]. split; [reflexivity|].
+      destruct (mandatory_parentheses c || Nat.ltb pu (precedence c)) eqn:Wp; cbn [paren app hd_error]; [exact I|].
+      apply orb_false_iff in Wp. destruct Wp as [_ Wp].
+      destruct c as [[|z|s|]|x|[] c'|o a b]; cbn [wf_term] in W.
+      * exact I.
+      * cbn [print_term print_pterm app hd_error].
+        destruct (Z.leb_spec 1 z) as [L|L]; [|lia]. rewrite (num_pos_prec z L) in Wp. discriminate.
+      * exact W.
+      * exact I.
+      * exact W.
+      * rewrite print_term_un. exact I.
+      * rewrite prec_bin in Wp. apply Nat.ltb_ge in Wp. pose proof (pu_lt_pb o). lia.
+    + apply lexable_paren; [exact (IH W)|exact SK|eapply kw_tail, KW|exact LK].
+  - (* binary *)
+    cbn [wf_term] in W. destruct W as [Wl Wr].
+    cbn [print_term fmt_operator] in *. rewrite <- !app_assoc in *. cbn [app] in *.
+    apply lexable_paren; [exact (IHl Wl)|reflexivity|exact KW|].
+    cbn [lexable opnd_after]. split.
+    + destruct o; cbn [tok_ok]; auto.
+    + apply lexable_paren; [exact (IHr Wr)|exact SK| |exact LK].
+      apply kw_app_r in KW. eapply kw_tail, KW.
+Qed.
+
+End TermLexable.
+
+Lemma sep_more_terms ts K : sep_head (print_more_terms ts ++ TkRP :: K).
+Proof. destruct ts; reflexivity. Qed.
+
+Lemma more_terms_lexable ts : Forall wf_term ts -> forall K,
+  kw_clash (print_more_terms ts ++ TkRP :: K) = false -> lexable false K ->
+  lexable false (print_more_terms ts ++ TkRP :: K).
+Proof.
+  induction 1 as [|u ts Wu _ IH]; intros K KW LK.
+  - cbn. split; [exact I|exact LK].
+  - cbn [print_more_terms flat_map app] in *. fold (print_more_terms ts) in *.
+    rewrite <- app_assoc in *.
+    cbn [lexable tok_ok opnd_after]. split; [exact I|].
+    apply term_lexable; [exact Wu|apply sep_more_terms|eapply kw_tail, KW|].
+    apply IH; [|exact LK]. apply kw_tail in KW. eapply kw_app_r, KW.
+Qed.
+
+Lemma atom_lexable a : wf_atom a -> forall o K, sep_head K ->
+  kw_clash (print_atom a ++ K) = false -> lexable false K -> lexable o (print_atom a ++ K).
+Proof.
+  destruct a as [p args]. intros [Wp Wa] o K SK KW LK. cbn [apred aterms] in *.
+  unfold print_atom in *. cbn [apred aterms] in *.
+  destruct args as [|t ts].
+  - cbn [app lexable tok_ok opnd_after] in *. split; [|exact LK].
+    split; [exact Wp|]. split; [apply sep_head_next, SK|].
+    destruct K as [|k K']; [contradiction|]. cbn [hd_error]. intros E. eapply kw_head; eassumption.
+  - inversion Wa as [|? ? Wt Wts]; subst.
+    cbn [app] in *. rewrite print_terms_cons in *. rewrite <- !app_assoc in *. cbn [app] in *.
+    cbn [lexable tok_ok opnd_after hd_error]. split; [split; [exact Wp|split; [reflexivity|reflexivity]]|].
+    split; [exact I|].
+    apply kw_tail, kw_tail in KW.
+    apply term_lexable; [exact Wt|apply sep_more_terms|exact KW|].
+    apply more_terms_lexable; [exact Wts|eapply kw_app_r, KW|exact LK].
+Qed.
+
+Lemma literal_lexable l : wf_atom (latom l) -> forall K, sep_head K ->
+  kw_clash (print_literal l ++ K) = false -> lexable false K -> lexable true (print_literal l ++ K).
+Proof.
+  destruct l as [s a]. cbn [latom]. intros W K SK KW LK. unfold print_literal in *. cbn [lsign latom] in *.
+  rewrite <- app_assoc in *.
+  destruct s; cbn [print_sign app] in *.
+  - apply atom_lexable; assumption.
+  - cbn [lexable tok_ok opnd_after]. split; [exact I|].
+    apply atom_lexable; [exact W|exact SK|eapply kw_tail, KW|exact LK].
+  - cbn [lexable tok_ok opnd_after]. split; [exact I|]. split; [exact I|].
+    apply atom_lexable; [exact W|exact SK|eapply kw_tail, kw_tail, KW|exact LK].
+Qed.
+
+Lemma comparison_lexable c : wf_term (clhs c) /\ wf_term (crhs c) -> forall K, sep_head K ->
+  kw_clash (print_comparison c ++ K) = false -> lexable false K ->
+  lexable true (print_comparison c ++ K).
+Proof.
+  destruct c as [rel l r]. cbn [clhs crhs]. intros [Wl Wr] K SK KW LK.
+  unfold print_comparison in *. cbn [crel clhs crhs] in *. rewrite <- app_assoc in *. cbn [app] in *.
+  apply term_lexable; [exact Wl|reflexivity|exact KW|].
+  cbn [lexable tok_ok opnd_after]. split; [exact I|].
+  apply term_lexable; [exact Wr|exact SK| |exact LK].
+  apply kw_app_r in KW. eapply kw_tail, KW.
+Qed.
+
+Lemma bformula_lexable f : wf_bformula f -> forall K, sep_head K ->
+  kw_clash (print_bformula f ++ K) = false -> lexable false K ->
+  lexable true (print_bformula f ++ K).
+Proof.
+  destruct f as [l|c]; cbn [wf_bformula print_bformula]; intros W K SK KW LK.
+  - apply literal_lexable; assumption.
+  - apply comparison_lexable; assumption.
+Qed.
+
+Lemma sep_more_bformulas fs REST : sep_head (print_more_bformulas fs ++ TkDot :: REST).
+Proof. destruct fs; reflexivity. Qed.
+
+Lemma more_bformulas_lexable fs : Forall wf_bformula fs -> forall REST,
+  kw_clash (print_more_bformulas fs ++ TkDot :: REST) = false -> lexable true REST ->
+  lexable false (print_more_bformulas fs ++ TkDot :: REST).
+Proof.
+  induction 1 as [|g fs Wg _ IH]; intros REST KW LR.
+  - cbn. split; [exact I|exact LR].
+  - cbn [print_more_bformulas flat_map app] in *. fold (print_more_bformulas fs) in *.
+    rewrite <- app_assoc in *.
+    cbn [lexable tok_ok opnd_after]. split; [exact I|].
+    apply bformula_lexable; [exact Wg|apply sep_more_bformulas|eapply kw_tail, KW|].
+    apply IH; [|exact LR]. apply kw_tail in KW. eapply kw_app_r, KW.
+Qed.
+
+Lemma body_lexable b : Forall wf_bformula b -> forall REST,
+  kw_clash (print_body b ++ TkDot :: REST) = false -> lexable true REST ->
+  lexable true (print_body b ++ TkDot :: REST).
+Proof.
+  intros W REST KW LR. destruct b as [|f fs].
+  - cbn. split; [exact I|exact LR].
+  - inversion W as [|? ? Wf Wfs]; subst. rewrite print_body_cons in *. rewrite <- app_assoc in *.
+    apply bformula_lexable; [exact Wf|apply sep_more_bformulas|exact KW|].
+    apply more_bformulas_lexable; [exact Wfs|eapply kw_app_r, KW|exact LR].
+Qed.
+
+(* [":-"] body "."  is lexable in either state (it follows an atom, "}" or nothing) *)
+Lemma rule_tail_lexable (c : bool) b REST o : Forall wf_bformula b -> (c = false -> b = []) ->
+  kw_clash ((if c then [TkIf] else []) ++ print_body b ++ TkDot :: REST) = false ->
+  lexable true REST ->
+  lexable o ((if c then [TkIf] else []) ++ print_body b ++ TkDot :: REST).
+Proof.
+  intros W Hc KW LR. destruct c; cbn [app] in *.
+  - cbn [lexable tok_ok opnd_after]. split; [exact I|].
+    apply body_lexable; [exact W|eapply kw_tail, KW|exact LR].
+  - rewrite (Hc eq_refl) in *. cbn. split; [exact I|exact LR].
+Qed.
+
+Lemma sep_rule_tail (c : bool) b REST : sep_head ((if c then [TkIf] else []) ++ print_body b ++ TkDot :: REST) \/ (c = false /\ b <> []).
+Proof.
+  destruct c; [left; reflexivity|]. destruct b as [|f fs]; [left; reflexivity|right; split; [reflexivity|discriminate]].
+Qed.
+
+Lemma rule_lexable r : wf_rule r -> forall REST,
+  kw_clash (print_rule r ++ REST) = false -> lexable true REST -> lexable true (print_rule r ++ REST).
+Proof.
+  destruct r as [h b]. intros [Wh Wb] REST KW LR. cbn [rhead rbody] in *.
+  unfold print_rule in *. cbn [rhead rbody] in *. rewrite <- !app_assoc in *. cbn [app] in *.
+  set (c := is_falsity h || negb (is_nil b)) in *.
+  assert (Hc : c = false -> b = []).
+  { subst c. intros E. apply orb_false_iff in E. destruct E as [_ E]. destruct b; [reflexivity|discriminate]. }
+  assert (ST : sep_head ((if c then [TkIf] else []) ++ print_body b ++ TkDot :: REST)).
+  { destruct (sep_rule_tail c b REST) as [S|[E N]]; [exact S|]. exfalso. apply N, Hc, E. }
+  destruct h as [a|a|]; cbn [print_head wf_head] in *.
+  - apply atom_lexable; [exact Wh|exact ST|exact KW|].
+    apply rule_tail_lexable; [exact Wb|exact Hc|eapply kw_app_r, KW|exact LR].
+  - cbn [app] in *. rewrite <- app_assoc in *. cbn [app] in *.
+    cbn [lexable tok_ok opnd_after]. split; [exact I|].
+    apply atom_lexable; [exact Wh|reflexivity|eapply kw_tail, KW|].
+    cbn [lexable tok_ok opnd_after]. split; [exact I|].
+    apply kw_tail, kw_app_r, kw_tail in KW.
+    apply rule_tail_lexable; [exact Wb|exact Hc|exact KW|exact LR].
+  - cbn [app] in *. apply rule_tail_lexable; [exact Wb|exact Hc|exact KW|exact LR].
+Qed.
+
+Lemma program_lexable p : wf_program p -> kw_clash (print_program p) = false -> lexable true (print_program p).
+Proof.
+  induction 1 as [|r p Wr _ IH]; intros KW; [exact I|].
+  cbn [print_program flat_map] in *. fold (print_program p) in *.
+  apply rule_lexable; [exact Wr|exact KW|]. apply IH. eapply kw_app_r, KW.
+Qed.
+
+(* ================================================================ G. the lexer reads the printed bytes back *)
+
+Theorem lex_render_program p : wf_program p -> keyword_ident p = false ->
+  lex (render (print_program p)) = Some (print_program p).
+Proof. intros W K. apply lexable_lex, program_lexable; assumption. Qed.
+
+Theorem text_roundtrip p : wf_program p -> program_numerals_ok p = true -> keyword_ident p = false ->
+  parse_program_text (display_program p) = POk p.
+Proof.
+  intros W N K. apply text_roundtrip_given_lex; [|exact N].
+  apply lex_render_program; assumption.
+Qed.
